@@ -26,7 +26,15 @@ def rel(a, b):
 
 
 def gen_fT(rng):
-    """f in 1e8..1e15 Hz, T in 2..1e4 K with x = hf/kT in [1e-6, 600]"""
+    """f in 1e8..1e15 Hz, T in 2..1e4 K with x = hf/kT in [1e-6, 600]; every 6th point is placed
+    deliberately near the ends of the x range (1e-6 and 600) and in the band 450..600"""
+    if rng.random() < 0.17:
+        x = rng.choice([1.0000001e-6, 1.5e-6, 599.999, 590.0, rng.uniform(450, 600), 10 ** rng.uniform(-6, -5)])
+        for _ in range(100):
+            T = numlib.loguniform(rng, 2.0, 1e4)
+            f = x * K * T / H
+            if 1e8 <= f <= 1e15 and 1e-6 <= H * f / (K * T) <= 600:
+                return f, T, H * f / (K * T)
     while True:
         f = numlib.loguniform(rng, 1e8, 1e15)
         T = numlib.loguniform(rng, 2.0, 1e4)
@@ -98,6 +106,21 @@ def explore(ck, n, em, np, xrun=True):
         if rel(em.frequency2wavelength(f), C / f) > 2 * EPS or rel(em.frequency2wavenumber(f), f / C) > 2 * EPS \
                 or rel(em.wavelength2wavenumber(lam), 1 / lam) > 2 * EPS:
             ck.violation("other", f"unit converter wrong at f={f!r}", {"fn": "units", "args": [f]})
+    # array / scalar agreement of every function (numpy glue vs the pointwise model)
+    fs_ = np.array([numlib.loguniform(rng, 1e9, 1e13) for _ in range(5)])
+    Ts_ = np.array([numlib.loguniform(rng, 20, 3e3) for _ in range(5)])
+    for name, a1, a2 in (("planck", fs_, Ts_), ("planck_wavelength", C / fs_, Ts_), ("planck_wavenumber", fs_ / C, Ts_),
+                         ("rayleighjeans", fs_, Ts_), ("rayleighjeans_wavelength", C / fs_, Ts_),
+                         ("radiance2planckTb", fs_, np.asarray(em.planck(fs_, Ts_))), ("radiance2rayleighjeansTb", fs_, np.asarray(em.rayleighjeans(fs_, Ts_)))):
+        va = np.asarray(getattr(em, name)(a1, a2))
+        for i in range(5):
+            sv = float(getattr(em, name)(float(a1[i]), float(a2[i])))
+            if va.shape != (5,) or rel(va[i], sv) > 4 * EPS:
+                ck.violation("other", f"{name}: array element {i} = {float(va[i])!r} differs from the scalar call {sv!r}", {"fn": name, "args": [float(a1[i]), float(a2[i])]})
+    for name in ("frequency2wavelength", "frequency2wavenumber", "wavelength2frequency", "wavelength2wavenumber", "wavenumber2frequency", "wavenumber2wavelength"):
+        va = np.asarray(getattr(em, name)(fs_))
+        if va.shape != (5,) or any(rel(va[i], getattr(em, name)(float(fs_[i]))) > 2 * EPS for i in range(5)):
+            ck.violation("other", f"{name}: array result differs from scalar calls", {"fn": name, "args": fs_.tolist()})
     # broadcasting of planck: f column x T row
     fs = np.array([1e10, 1e11, 1e12])
     Ts = np.array([100.0, 250.0])
@@ -137,8 +160,14 @@ def explore(ck, n, em, np, xrun=True):
                 or np.max(np.abs(f2 - f_grid) / f_grid) > 1e-14 or np.max(np.abs(wn - f_grid / C) / wn) > 1e-14:
             ck.violation("other", "per-frequency <-> per-wavenumber converters inconsistent", {"fn": "perwn", "args": f_grid.tolist()})
         if xrun:
-            calls.append(("perfrequency2perwavelength", (float(spec.flat[0]), float(f_grid[0])),
-                          (float(spec.flat[0]) * float(f_grid[0]) ** 2 / C, C / float(f_grid[0]))))
+            # cross-run the pointwise model against the REAL converters (element 0 of the input maps to the
+            # last element of the reversed output)
+            p0, g0 = float(spec.flat[0]) if not extra else float(spec[(0,) + (0,) * len(extra)]), float(f_grid[0])
+            calls.append(("perfrequency2perwavelength", (p0, g0), (float(perm[(-1,) + (0,) * len(extra)]), float(lam[-1]))))
+            calls.append(("perfrequency2perwavenumber", (p0, g0), (float(pwn[(0,) + (0,) * len(extra)]), float(wn[0]))))
+            pm0, l0 = float(perm[(0,) + (0,) * len(extra)]), float(lam[0])
+            calls.append(("perwavelength2perfrequency", (pm0, l0), (float(back[(-1,) + (0,) * len(extra)]), float(fb[-1]))))
+            calls.append(("perwavenumber2perfrequency", (float(pwn[(0,) + (0,) * len(extra)]), float(wn[0])), (float(b2[(0,) + (0,) * len(extra)]), float(f2[0]))))
     # ---------------- snell / fresnel
     for _ in range(max(n // 2, 20)):
         n1 = numlib.loguniform(rng, 0.5, 4.0)
@@ -177,10 +206,35 @@ def explore(ck, n, em, np, xrun=True):
             Rvc, Rhc = em.fresnel(n1, n2c, th)
             Rvc0, Rhc0 = em.fresnel(n1, n2c, 0.0)
         ck.case(key=("fresnel-c", n1, n2c.real, n2c.imag, th), kind="fresnel/complex")
+        # independent value of the refraction angle for an absorbing medium (complex Snell law:
+        # the real angle of the planes of constant phase), Born & Wolf / Liou:  tan(theta2) = sin1 / q,
+        # q = Re sqrt(m^2 - sin1^2)  with m = n2c / n1
+        import cmath
+        sin1 = math.sin(math.radians(th))
+        mrel = n2c / n1
+        qq = cmath.sqrt(mrel * mrel - sin1 * sin1).real
+        t2_ref = math.degrees(math.atan2(sin1, qq))
+        with np.errstate(all="ignore"):
+            t2c = em.snell(n1, n2c, th)
+        t2c = float(np.real(t2c))
+        if math.isnan(t2c) or abs(t2c - t2_ref) > 1e-7:
+            ck.violation("other", f"snell({n1!r},{n2c!r},{th!r}) = {t2c!r}, complex Snell law gives {t2_ref!r}", {"fn": "snell", "args": [n1, [n2c.real, n2c.imag], th]})
+        # nearly real index: continuity with the real branch
+        with np.errstate(all="ignore"):
+            t2eps = float(np.real(em.snell(n1, complex(n2, 1e-12), th)))
+        if not math.isnan(t2) and s1 < n2 * (1 - 1e-6) and abs(t2eps - t2) > 1e-6:
+            ck.violation("other", f"snell with n2 + 1e-12j = {t2eps!r} differs from the real-index value {t2!r}", {"fn": "snell", "args": [n1, [n2, 1e-12], th]})
         if not (abs(Rvc) <= 1 + 1e-9 and abs(Rhc) <= 1 + 1e-9):
             ck.violation("other", f"fresnel({n1!r},{n2c!r},{th!r}): |Rv|={abs(Rvc)!r}, |Rh|={abs(Rhc)!r} exceed 1", {"fn": "fresnel", "args": [n1, [n2c.real, n2c.imag], th]})
         if abs(abs(Rvc0) - abs(Rhc0)) > 1e-12:
             ck.violation("other", f"complex n2: |Rv| != |Rh| at normal incidence (n1={n1!r}, n2={n2c!r})", {"fn": "fresnel", "args": [n1, [n2c.real, n2c.imag], 0.0]})
+    for n1a, n2a in ((np.array([1.0, 0.0]), 1.5), (1.0, np.array([1.5, -1.0])), (np.array([1.0, 1.2]), np.array([-0.5, 1.5]))):
+        try:
+            with np.errstate(all="ignore"):
+                em.snell(n1a, n2a, 10.0)
+            ck.violation("other", "snell accepted an array containing a non-positive refractive index", {"fn": "snell-array-guard", "args": [np.asarray(n1a).tolist(), np.asarray(n2a).tolist()]})
+        except Exception:
+            pass
     for bad in ((0.0, 1.5), (1.0, -1.0)):
         try:
             em.snell(bad[0], bad[1], 10.0)
@@ -213,13 +267,14 @@ def main():
     except vlib.InfraError:
         xrun = False
         ck.notes.append("Float driver not available (build broken): cross-run skipped")
-    explore(ck, ck.budget(150, 5000), em, np, xrun)
+    ck.guard(lambda: explore(ck, ck.budget(150, 5000), em, np, xrun), what="typhon.physics.em")
     if ck.broken() and not ck.violations:
-        explore(ck, 5000, em, np, xrun=False)
+        ck.guard(lambda: explore(ck, 5000, em, np, xrun=False), what="typhon.physics.em")
     ck.finish()
 
 
 def replay(path):
-    obj = json.load(open(path))
-    print(json.dumps(obj.get("case"), indent=1), obj.get("what"))
-    raise SystemExit(1 if obj.get("case") else 0)
+    import numpy as np
+    from typhon.physics import em
+    numlib.replay_by_rerun(PROP, path, lambda: vlib.Check(PROP, pkg="numeric", props="Proofs.Props.C08"),
+                           lambda ck: ck.guard(lambda: explore(ck, ck.budget(150, 5000), em, np, xrun=False)))
